@@ -16,7 +16,28 @@ GenPost == LET lower == SetToSeq(FOSentUpTo(Par.n - 1))
                ones == SetToSeq(FON(1, {}))
                twins == SelectSeq([j \in 1..Len(ones) |-> IF j % 3 = 0 THEN <<"O", IF j % 2 = 0 THEN "Conjunction" ELSE "Conditional", <<ones[j], ones[j]>>>> ELSE <<>>],
                                   LAMBDA x : x # <<>>)
-               seq == lower \o pick \o twins
+               \* sentences only the constructors build (the parsers refuse them): vacuous quantifiers, alone and
+               \* under operators / other quantifiers, and open sentences that differ only in the bound variable
+               \* (each given twice: the second construction goes through the instance cache)
+               vx == GVars[1]
+               vy == GVars[2]
+               c0 == <<"c", 0, 0>>
+               c1 == <<"c", 1, 0>>
+               Qn(q, v, b) == <<"Q", q, v, b>>
+               Ng(x) == <<"O", "Negation", <<x>>>>
+               closedBodies == << <<"A", 0, 0>>, <<"P", <<0, 0, 1>>, <<c0>>>>, <<"P", <<1, 0, 2>>, <<c0, c1>>>> >>
+               vac == FlattenSeq([j \in 1..Len(closedBodies) |-> LET b == closedBodies[j] IN
+                        << Qn("Existential", vx, b), Ng(Qn("Existential", vx, b)),
+                           <<"O", "Conjunction", <<Qn("Universal", vx, b), <<"A", 1, 0>>>>>>,
+                           Qn("Existential", vx, Qn("Universal", vy, b)),
+                           <<"O", "Necessity", <<Ng(Qn("Existential", vx, Qn("Universal", vy, b)))>>>>,
+                           <<"O", "Disjunction", <<Qn("Existential", vx, <<"P", <<0, 0, 1>>, <<vx>>>>), Qn("Universal", vy, b)>>>> >>])
+               g2 == <<"P", <<1, 0, 2>>, <<vx, vy>>>>
+               binder == << Qn("Existential", vx, g2), Qn("Existential", vy, g2), Qn("Existential", vy, g2),
+                            Qn("Existential", vx, g2), Qn("Universal", vx, Qn("Existential", vy, g2)),
+                            Qn("Universal", vy, Qn("Existential", vx, g2)), Qn("Universal", vy, Qn("Existential", vx, g2)),
+                            Qn("Universal", vx, Qn("Existential", vy, g2)) >>
+               seq == lower \o pick \o twins \o vac \o binder
                out == [j \in 1..Len(seq) |-> [id |-> j, s |-> seq[j]]]
            IN /\ TLCSet(2, 0)
               /\ PrintT(<<"GENERATED", Len(seq), Len(top)>>)
